@@ -11,7 +11,8 @@ import (
 	"golang.org/x/tools/go/ssa"
 )
 
-var reLoopIdx = regexp.MustCompile(`\(phi\(\(<cycle> \+ 1\)\|-1\) \+ 1\)`)
+// the index of a range loop ((phi(-1, i) + 1)) or of a classic counter starting at 0 (phi(0, i+1))
+var reLoopIdx = regexp.MustCompile(`\(phi\(\(<cycle> \+ 1\)\|-1\) \+ 1\)|phi\(\(<cycle> \+ 1\)\|0\)`)
 
 // npath is ssax.Path with range-loop indices abbreviated to "i".
 func npath(v ssa.Value) string {
